@@ -195,16 +195,18 @@ def notification_producers(P, R, rid):
         if u.mod.short not in ('supervisorproxy', 'multicast', 'rpchandler', 'listener'):
             continue
         fm = factmap(u)
-        for st in statements(u.node):
-            if not (isinstance(st, ast.Assign) and isinstance(st.value, ast.Tuple) and len(st.value.elts) == 2):
+        for tup in own_nodes(u.node):
+            # a notification is the pair (NotificationHeaders.X.value, data), wherever it is built (assigned or passed)
+            if not (isinstance(tup, ast.Tuple) and len(tup.elts) == 2 and isinstance(tup.ctx, ast.Load)):
                 continue
-            h = st.value.elts[0]
+            h = tup.elts[0]
             txt = ast.unparse(h)
             if not (txt.startswith('NotificationHeaders.') and txt.endswith('.value')):
                 continue
+            st = fm.stmt_of.get(id(tup), tup)
             header = txt.split('.')[1]
             n_prod += 1
-            data = st.value.elts[1]
+            data = tup.elts[1]
             null = False
             if isinstance(data, ast.Constant) and data.value is None:
                 null = True
